@@ -113,11 +113,17 @@ Params(name) ==
       [] name = "q_header"   -> Suite("trans", TextsAP, TextsTiny, {"x", "num"}, Headers2, 1, 1, CtxNone,
                                       {"none"}, {FALSE}, {0}, {2, 3})
       [] name = "q_trim"     -> Suite("trans", TextsWs, {}, {"x"}, Headers0, 4, 0, CtxNone,
-                                      {"none", "trimmed", "notrimmed"}, BOOLEAN, {0}, {1})
+                                      {"none", "trimmed"}, BOOLEAN, {0}, {1})
       [] name = "q_trimpl"   -> Suite("trans", TextsWsP, TextsWsP, {"x"}, HeadersX, 2, 2, CtxNone,
                                       {"trimmed"}, {FALSE}, {0}, {1, 2})
       [] name = "q_context"  -> Suite("trans", TextsAP, TextsTiny, {"x"}, Headers1x, 2, 1, CtxBoth,
                                       {"none"}, {FALSE}, {0, 2}, {1, 2})
+      \* option matrix: `%`, line breaks, no / unreferenced / referenced variables under
+      \* every combination of modifier x trimmed policy (x both gettext styles, always)
+      [] name = "q_options"  -> Suite("trans", TextsSmall, TextsTiny, {"x"}, HeadersX, 2, 1, CtxNone,
+                                      {"none", "trimmed", "notrimmed"}, BOOLEAN, {0}, {1, 2})
+      [] name = "t_options"  -> Suite("trans", TextsMid, TextsAP, {"x"}, Headers1x, 2, 1, CtxNone,
+                                      {"none", "trimmed", "notrimmed"}, BOOLEAN, {0}, {1, 2})
       [] name = "q_calls"    -> Suite("calls", TextsCall, TextsTiny, {}, Headers0, 0, 0, CtxNone,
                                       {"none"}, {FALSE}, {0, 1}, {1, 2})
       [] name = "t_text"     -> Suite("trans", TextsFull, {}, {"x"}, HeadersText, 4, 0, CtxNone,
@@ -260,19 +266,21 @@ HeaderVarSrc(v) == IF v.f = "implicit" THEN <<v.n>>
 RECURSIVE HeaderSrc(_)
 HeaderSrc(h) == IF h = <<>> THEN <<>>
                 ELSE <<" ">> \o HeaderVarSrc(Head(h)) \o (IF Len(h) > 1 THEN <<",">> ELSE <<>>) \o HeaderSrc(Tail(h))
-BodySrc(ps) == FlatSeq(MapSeq(ps, LAMBDA p : IF p.t = "var" THEN <<"{{ ", p.s[1], " }}">> ELSE p.s))
+\* the items "{%", "%}", "{{", "}}" of an emitted source are delimiter symbols: the harness
+\* writes them as the delimiters of the syntax options the case is run under
+BodySrc(ps) == FlatSeq(MapSeq(ps, LAMBDA p : IF p.t = "var" THEN <<"{{", " ", p.s[1], " ", "}}">> ELSE p.s))
 LeadText(b) == [i \in 1..b.lead |-> "\n"]
 Src(b) ==
     LeadText(b)
-    \o <<"{% trans">>
+    \o <<"{%", " trans">>
     \o (IF b.ctx # NoCtx THEN <<" \"">> \o b.ctx \o <<"\"">> ELSE <<>>)
     \o (IF b.mod # "none" THEN <<" ", b.mod>> ELSE <<>>)
-    \o HeaderSrc(b.header) \o <<" %}">>
+    \o HeaderSrc(b.header) \o <<" ", "%}">>
     \o BodySrc(b.s)
     \o (IF b.hasPlural
-        THEN <<"{% pluralize">> \o (IF b.pvar # "" THEN <<" ", b.pvar>> ELSE <<>>) \o <<" %}">> \o BodySrc(b.p)
+        THEN <<"{%", " pluralize">> \o (IF b.pvar # "" THEN <<" ", b.pvar>> ELSE <<>>) \o <<" ", "%}">> \o BodySrc(b.p)
         ELSE <<>>)
-    \o <<"{% endtrans %}">>
+    \o <<"{%", " endtrans ", "%}">>
 
 (* ------------------------------------------------------------------------ *)
 (* ABSTRACT LAYER                                                            *)
@@ -436,12 +444,12 @@ IsPlural(fn) == fn \in {"ngettext", "npgettext"}
 HasCtx(fn) == fn \in {"pgettext", "npgettext"}
 Lit(s) == <<"\"">> \o s \o <<"\"">>
 CallSrc(c) ==
-    [i \in 1..c.lead |-> "\n"] \o <<"{{ ", c.fn, "(">>
+    [i \in 1..c.lead |-> "\n"] \o <<"{{", " ", c.fn, "(">>
     \o (IF HasCtx(c.fn) THEN Lit(CtxC) \o <<", ">> ELSE <<>>)
     \o (IF c.dyn THEN <<"y">> ELSE Lit(c.m1))
     \o (IF IsPlural(c.fn) THEN <<", ">> \o Lit(c.m2) \o <<", ", c.count>> ELSE <<>>)
     \o (IF c.kw THEN <<", x=vx">> ELSE <<>>)
-    \o <<") }}">>
+    \o <<") ", "}}">>
 \* messages handed to the translation callable (`_` resolves to gettext)
 CallRuntime(c, w) ==
     [f |-> IF c.fn = "_" THEN "gettext" ELSE c.fn,
@@ -502,6 +510,17 @@ AddPlural ==
 WorldsFor(b) == IF VarSet(b) = {} THEN {CHOOSE w \in P(b).worlds : TRUE} ELSE P(b).worlds
 DataOf(b, w) == [n \in {SourceOfVar(b, m) : m \in VarSet(b)} |-> WVal(w, n)]
 
+\* trim_blocks / lstrip_blocks cannot touch the block: no body starts with a line
+\* break (trim_blocks eats one after a block tag) and no body ends in blanks that
+\* follow a line break (lstrip_blocks eats them before a block tag)
+RECURSIVE EndsInNlBlanks(_)
+EndsInNlBlanks(a) == a # <<>> /\ a[Len(a)].k = "c"
+                     /\ (a[Len(a)].x = "\n" \/ (a[Len(a)].x \in {" ", "\t"} /\ EndsInNlBlanks(SubSeq(a, 1, Len(a) - 1))))
+BodyInert(ps) == LET a == Atoms(ps)
+                 IN /\ (a # <<>> => ~(a[1].k = "c" /\ a[1].x = "\n"))
+                    /\ ~(a # <<>> /\ a[Len(a)].k = "c" /\ a[Len(a)].x \in {" ", "\t"} /\ EndsInNlBlanks(SubSeq(a, 1, Len(a) - 1)))
+WsInert(b) == BodyInert(b.s) /\ BodyInert(b.p)
+
 HasPercent(ps) == \E i \in 1..Len(ps) : ps[i].t = "text" /\ "%" \in Range(ps[i].s)
 
 RunOf(b, nd, w, autoescape) ==
@@ -514,14 +533,14 @@ TransCase(b) ==
     IN [kind |-> "trans", suite |-> b.suite, src |-> Src(b), policy |-> b.policy,
         feat |-> [referenced |-> Referenced(b) # {}, header_vars |-> b.header # <<>>,
                   percent |-> HasPercent(b.s) \/ HasPercent(b.p), plural |-> b.hasPlural,
-                  trimmed |-> EffTrim(b), context |-> b.ctx # NoCtx],
+                  trimmed |-> EffTrim(b), context |-> b.ctx # NoCtx, ws_inert |-> WsInert(b)],
         data |-> {[w |-> w, vals |-> DataOf(b, w)] : w \in WorldsFor(b)},
         runs |-> {RunOf(b, nodes[new], w, ae) : w \in WorldsFor(b), ae \in BOOLEAN, new \in BOOLEAN},
         extracted |-> [old |-> Extracted(b, nodes[FALSE]), new |-> Extracted(b, nodes[TRUE])]]
 
 CallCase(c) ==
     [kind |-> "call", suite |-> c.suite, src |-> CallSrc(c), policy |-> FALSE,
-     feat |-> [dyn |-> c.dyn, kw |-> c.kw, fn |-> c.fn],
+     feat |-> [dyn |-> c.dyn, kw |-> c.kw, fn |-> c.fn, ws_inert |-> TRUE],
      data |-> {[w |-> w, vals |-> [n \in {"y", "vx", c.count} |-> WVal(w, n)]] : w \in P(c).worlds},
      runs |-> {[w |-> w, autoescape |-> ae, newstyle |-> new, calls |-> <<CallRuntime(c, w)>>]
                : w \in P(c).worlds, ae \in BOOLEAN, new \in {n \in BOOLEAN : CallOk(c, n)}},
